@@ -231,6 +231,162 @@ theorem SFB1D_per_adjoint_channels (g0 g1 : List R) (hL : 2 ≤ g0.length) (hLe 
         = dotN K (dlos.getD c []) (los.getD c []) + dotN K (dhis.getD c []) (his.getD c []) :=
   SFB1D_adjoint_channels .periodization g0 g1 _ _ (levelAdjS_per g0 g1 hL hLe hg) K hfit los his dys hl0 hl1 hb hd
 
+
+/-! ### the J-level 1-D module on `C` channels -/
+
+/-- `AFB1D_adjoint_channels` together with the shapes of everything it returns -/
+theorem AFB1D_adjoint_channels_shapes (m : Mode) (w0 w1 : List R) (Lvl : Nat → Prop) (K : Nat → Nat) (hA : LevelAdj m w0 w1 Lvl K)
+    (N : Nat) (hN : Lvl N) (xs g0s g1s : List (List R)) (hl0 : g0s.length = xs.length) (hl1 : g1s.length = xs.length)
+    (hx : ∀ c < xs.length, (xs.getD c []).length = N)
+    (hg : ∀ c < xs.length, (g0s.getD c []).length = K N ∧ (g1s.getD c []).length = K N) :
+    ∃ los his dxs, AFB1D_forward m w0 w1 xs = some (los, his) ∧ AFB1D_backward m w0 w1 N g0s g1s = some dxs ∧
+      los.length = xs.length ∧ his.length = xs.length ∧ dxs.length = xs.length ∧
+      (∀ c < xs.length, (los.getD c []).length = K N ∧ (his.getD c []).length = K N ∧ (dxs.getD c []).length = N) ∧
+      ∀ c < xs.length, dotN (K N) (los.getD c []) (g0s.getD c []) + dotN (K N) (his.getD c []) (g1s.getD c [])
+        = dotN N (xs.getD c []) (dxs.getD c []) := by
+  classical
+  let lo : List R → List R := fun x => (afb1dOne m w0 x).getD []
+  let hi : List R → List R := fun x => (afb1dOne m w1 x).getD []
+  let S : List R → List R → List R := fun a b => (sfb1dCh m w0 w1 a b).getD []
+  have hall : ∀ c < xs.length, ∃ a b d, afb1dOne m w0 (xs.getD c []) = some a ∧ afb1dOne m w1 (xs.getD c []) = some b ∧
+      sfb1dCh m w0 w1 (g0s.getD c []) (g1s.getD c []) = some d ∧ a.length = K N ∧ b.length = K N ∧ (foldCrop m N d).length = N ∧
+      dotN (K N) a (g0s.getD c []) + dotN (K N) b (g1s.getD c []) = dotN N (xs.getD c []) (foldCrop m N d) := by
+    intro c hc
+    obtain ⟨a, b, e0, e1, la, lb, hadj⟩ := hA (xs.getD c []) (by rw [hx c hc]; exact hN)
+    obtain ⟨d, es, ld, hid⟩ := hadj (g0s.getD c []) (g1s.getD c []) (by rw [hx c hc]; exact (hg c hc).1) (by rw [hx c hc]; exact (hg c hc).2)
+    rw [hx c hc] at la lb ld hid
+    exact ⟨a, b, d, e0, e1, es, la, lb, ld, hid⟩
+  have hlo : ∀ c < xs.length, afb1dOne m w0 (xs.getD c []) = some (lo (xs.getD c [])) ∧
+      afb1dOne m w1 (xs.getD c []) = some (hi (xs.getD c [])) := by
+    intro c hc
+    obtain ⟨a, b, _, e0, e1, _⟩ := hall c hc
+    exact ⟨by simp only [lo, e0, Option.getD_some], by simp only [hi, e1, Option.getD_some]⟩
+  have hS : ∀ c < g0s.length, sfb1dCh m w0 w1 (g0s.getD c []) (g1s.getD c []) = some (S (g0s.getD c []) (g1s.getD c [])) := by
+    intro c hc
+    obtain ⟨_, _, d, _, _, es, _⟩ := hall c (by omega)
+    simp only [S, es, Option.getD_some]
+  refine ⟨_, _, _, AFB1D_forward_channels m w0 w1 xs lo hi hlo,
+    AFB1D_backward_channels m w0 w1 N g0s g1s S (by omega) hS, by simp, by simp, by simp [hl0], ?_, ?_⟩
+  · intro c hc
+    rw [getD_tab, getD_tab, getD_tab, if_pos hc, if_pos hc, if_pos (by omega)]
+    obtain ⟨a, b, d, e0, e1, es, la, lb, ld, _⟩ := hall c hc
+    have ea : lo (xs.getD c []) = a := by simp only [lo, e0, Option.getD_some]
+    have eb : hi (xs.getD c []) = b := by simp only [hi, e1, Option.getD_some]
+    have ed : S (g0s.getD c []) (g1s.getD c []) = d := by simp only [S, es, Option.getD_some]
+    rw [ea, eb, ed]
+    exact ⟨la, lb, ld⟩
+  · intro c hc
+    rw [getD_tab, getD_tab, getD_tab, if_pos hc, if_pos hc, if_pos (by omega)]
+    obtain ⟨a, b, d, e0, e1, es, _, _, _, hid⟩ := hall c hc
+    have ea : lo (xs.getD c []) = a := by simp only [lo, e0, Option.getD_some]
+    have eb : hi (xs.getD c []) = b := by simp only [hi, e1, Option.getD_some]
+    have ed : S (g0s.getD c []) (g1s.getD c []) = d := by simp only [S, es, Option.getD_some]
+    rw [ea, eb, ed]
+    exact hid
+
+/-- the chain of `AFB1D.backward` passes on a stack of channels -/
+def DWT1DForwardBackwardC (m : Mode) (w0 w1 : List R) : List Nat → List (List R) → List (List (List R)) → Option (List (List R))
+  | [], gls, _ => some gls
+  | N :: ns, gls, ghs => do
+    let g0s ← DWT1DForwardBackwardC m w0 w1 ns gls ghs.tail
+    AFB1D_backward m w0 w1 N g0s (ghs.headD [])
+
+/-- a cotangent pyramid on `C` channels of the shapes a `J`-level transform of length-`N` signals produces -/
+def PyrOKC (K : Nat → Nat) (C : Nat) : Nat → Nat → List (List R) → List (List (List R)) → Prop
+  | 0, N, gls, [] => gls.length = C ∧ ∀ c < C, (gls.getD c []).length = N
+  | J+1, N, gls, g1s :: rest => g1s.length = C ∧ (∀ c < C, (g1s.getD c []).length = K N) ∧ PyrOKC K C J (K N) gls rest
+  | _, _, _, _ => False
+
+/-- channel `c` of the output pyramid paired with channel `c` of the cotangent pyramid -/
+def pdotC (c : Nat) (yls : List (List R)) (yhs : List (List (List R))) (gls : List (List R)) (ghs : List (List (List R))) : R :=
+  dotN (yls.getD c []).length (yls.getD c []) (gls.getD c [])
+    + (List.zipWith (fun d g => dotN (d.getD c []).length (d.getD c []) (g.getD c [])) yhs ghs).sum
+
+/-- **back-propagation through the J-level `DWT1DForward` on every number of channels is the adjoint, channel by channel**,
+whenever one level is adjoint on one channel -/
+theorem loop_adjoint_channels (m : Mode) (w0 w1 : List R) (Lvl : Nat → Prop) (K : Nat → Nat) (hA : LevelAdj m w0 w1 Lvl K) (C : Nat) :
+    ∀ (J N : Nat) (xs gls : List (List R)) (ghs : List (List (List R))), xs.length = C → (∀ c < C, (xs.getD c []).length = N) →
+    LvlsOK Lvl K J N → PyrOKC K C J N gls ghs →
+    ∃ yls yhs dxs, DWT1DForward m w0 w1 J xs = some (yls, yhs) ∧
+      DWT1DForwardBackwardC m w0 w1 (shapes K J N) gls ghs = some dxs ∧ dxs.length = C ∧ (∀ c < C, (dxs.getD c []).length = N) ∧
+      ∀ c < C, pdotC c yls yhs gls ghs = dotN N (xs.getD c []) (dxs.getD c [])
+  | 0, N, xs, gls, ghs, hC, hx, _, hp => by
+    cases ghs with
+    | cons b rest => exact absurd hp (by simp [PyrOKC])
+    | nil =>
+      obtain ⟨hl, hg⟩ := hp
+      refine ⟨xs, [], gls, by simp [DWT1DForward], by simp [shapes, DWT1DForwardBackwardC], hl, hg, ?_⟩
+      intro c hc
+      simp only [pdotC, List.zipWith_nil_left, List.sum_nil, add_zero]
+      rw [hx c hc]
+  | J+1, N, xs, gls, ghs, hC, hx, hok, hp => by
+    cases ghs with
+    | nil => exact absurd hp (by simp [PyrOKC])
+    | cons g1s rest =>
+      obtain ⟨hg1l, hg1, hrest⟩ := hp
+      obtain ⟨hl, hokr⟩ := hok
+      subst hC
+      -- the forward level (any cotangents of the right shapes name its results)
+      obtain ⟨los, his, _, hf, _, llos, lhis, _, hsh, _⟩ := AFB1D_adjoint_channels_shapes m w0 w1 Lvl K hA N hl xs g1s g1s hg1l hg1l hx
+        (fun c hc => ⟨hg1 c hc, hg1 c hc⟩)
+      -- the coarser levels
+      obtain ⟨yls, yhs, g0s, hfr, hbr, lg0s, hg0, hdr⟩ := loop_adjoint_channels m w0 w1 Lvl K hA los.length J (K N) los gls rest rfl
+        (fun c hc => (hsh c (by omega)).1) hokr (by rw [llos]; exact hrest)
+      rw [llos] at lg0s hg0 hdr
+      -- this level with the gradients handed up
+      obtain ⟨los', his', dxs, hf', hb, _, _, ldxs, hsh', hid⟩ := AFB1D_adjoint_channels_shapes m w0 w1 Lvl K hA N hl xs g0s g1s lg0s hg1l hx
+        (fun c hc => ⟨hg0 c hc, hg1 c hc⟩)
+      rw [hf] at hf'
+      simp only [Option.some.injEq, Prod.mk.injEq] at hf'
+      obtain ⟨e1, e2⟩ := hf'
+      subst e1 e2
+      refine ⟨yls, his :: yhs, dxs, ?_, ?_, ldxs, fun c hc => (hsh' c hc).2.2, ?_⟩
+      · simp only [DWT1DForward]
+        rw [hf]
+        simp only [Option.bind_eq_bind, Option.bind_some]
+        rw [hfr]
+        simp
+      · simp only [shapes, DWT1DForwardBackwardC, List.tail_cons, List.headD_cons]
+        rw [hbr]
+        simp only [Option.bind_eq_bind, Option.bind_some]
+        exact hb
+      · intro c hc
+        rw [← hid c hc]
+        have := hdr c hc
+        simp only [pdotC, List.zipWith_cons_cons, List.sum_cons] at this ⊢
+        rw [(hsh c hc).2.1, ← this]
+        ring
+
+/-- mode zero: every J, every channel count, every length and filter lengths -/
+theorem DWT1D_zero_adjoint_channels (w0 w1 : List R) (hL : 2 ≤ w0.length) (hw : w1.length = w0.length) (C J N : Nat) (hN : 1 ≤ N)
+    (xs gls : List (List R)) (ghs : List (List (List R))) (hC : xs.length = C) (hx : ∀ c < C, (xs.getD c []).length = N)
+    (hp : PyrOKC (fun N => dwtCoeffLen N w0.length) C J N gls ghs) :
+    ∃ yls yhs dxs, DWT1DForward .zero w0 w1 J xs = some (yls, yhs) ∧
+      DWT1DForwardBackwardC .zero w0 w1 (shapes (fun N => dwtCoeffLen N w0.length) J N) gls ghs = some dxs ∧ dxs.length = C ∧
+      (∀ c < C, (dxs.getD c []).length = N) ∧ ∀ c < C, pdotC c yls yhs gls ghs = dotN N (xs.getD c []) (dxs.getD c []) := by
+  have hok : ∀ (J N : Nat), 1 ≤ N → LvlsOK (fun N => 1 ≤ N) (fun N => dwtCoeffLen N w0.length) J N := by
+    intro J
+    induction J with
+    | zero => intro N _; trivial
+    | succ J ih => intro N hN; exact ⟨hN, ih _ (by show 1 ≤ dwtCoeffLen N w0.length; unfold dwtCoeffLen; omega)⟩
+  exact loop_adjoint_channels .zero w0 w1 _ _ (levelAdj_zero w0 w1 hL hw) C J N xs gls ghs hC hx (hok J N hN) hp
+
+/-- periodization: every J, every channel count, every length (odd included), even filters that fit every even-extended level -/
+theorem DWT1D_per_adjoint_channels (h0 h1 : List R) (hL : 2 ≤ h0.length) (hLe : h0.length % 2 = 0) (hh1 : h1.length = h0.length)
+    (C J N : Nat) (xs gls : List (List R)) (ghs : List (List (List R))) (hC : xs.length = C) (hx : ∀ c < C, (xs.getD c []).length = N)
+    (hok : LvlsOK (fun N => 1 ≤ N ∧ h0.length ≤ N + N % 2) (fun N => (N + N % 2) / 2) J N)
+    (hp : PyrOKC (fun N => (N + N % 2) / 2) C J N gls ghs) :
+    ∃ yls yhs dxs, DWT1DForward .periodization h0.reverse h1.reverse J xs = some (yls, yhs) ∧
+      DWT1DForwardBackwardC .periodization h0.reverse h1.reverse (shapes (fun N => (N + N % 2) / 2) J N) gls ghs = some dxs ∧
+      dxs.length = C ∧ (∀ c < C, (dxs.getD c []).length = N) ∧
+      ∀ c < C, pdotC c yls yhs gls ghs = dotN N (xs.getD c []) (dxs.getD c []) :=
+  loop_adjoint_channels .periodization h0.reverse h1.reverse _ _ (levelAdj_per h0 h1 hL hLe hh1) C J N xs gls ghs hC hx hok hp
+
+/-- non-vacuity: two channels, two levels, length 5, 4-tap filters in mode zero: bands of length 4 and 3 -/
+example : PyrOKC (fun N => dwtCoeffLen N 4) 2 2 5 ([[1, 2, 3], [4, 5, 6]] : List (List Int))
+    [[[1, 2, 3, 4], [5, 6, 7, 8]], [[1, 2, 3], [4, 5, 6]]] := by
+  refine ⟨rfl, ?_, rfl, ?_, rfl, ?_⟩ <;> (intro c hc; interval_cases c <;> simp [dwtCoeffLen])
+
 /-- the per-channel hypotheses are satisfiable: a three-channel stack of length-5 signals -/
 example : ∀ c < ([[1, 2, 3, 4, 5], [0, 0, 1, 0, 0], [5, 4, 3, 2, 1]] : List (List Int)).length,
     (([[1, 2, 3, 4, 5], [0, 0, 1, 0, 0], [5, 4, 3, 2, 1]] : List (List Int)).getD c []).length = 5 := by
